@@ -1,3 +1,4 @@
+use crate::number_format::to_excel_precision;
 use crate::{
     calc_result::{CalcResult, Range},
     expressions::{
@@ -308,10 +309,13 @@ impl<'a> Model<'a> {
         result: CalcResult,
         cell: CellReferenceIndex,
     ) -> Result<String, CalcResult> {
-        // FIXME: I think when casting a number we should convert it to_precision(x, 15)
-        // See function Exact
         match result {
-            CalcResult::Number(f) => Ok(format!("{f}")),
+            // 15 significant digits, like everywhere else a number is shown; -0 is 0
+            CalcResult::Number(f) => Ok(if f == 0.0 {
+                "0".to_string()
+            } else {
+                format!("{}", to_excel_precision(f, 15))
+            }),
             CalcResult::String(s) => Ok(s),
             CalcResult::Boolean(f) => {
                 if f {
